@@ -325,6 +325,9 @@ func (h *history) emit(kind string) {
 	}
 	b := h.nOps / 100 * 100
 	h.e.Count(fmt.Sprintf("ops_%03d_%03d", b, b+99), 1)
+	if len(h.toks) <= 24 && len(h.toks) >= 6 {
+		h.e.Sample("samples", map[string]string{"kind": kind, "history": strings.Join(h.toks, " ")}, 4)
+	}
 }
 
 // ---- history shapes ----
